@@ -3,7 +3,7 @@ from __future__ import annotations
 
 from hypothesis import strategies as st
 
-from vf.core import CaseResult, Ctx, Violation, hyp_run
+from vf.core import CaseResult, Ctx, Violation, exc_sig, hyp_run
 from vf.gen.wfspec import wfspecs
 from vf.sim.c08_util import (
     FINAL, FlowMonitor, basic_steps, children_of, db_flow_numbers,
@@ -12,7 +12,7 @@ from vf.sim.drive import SCase, outcome_maps, run_async
 
 PROP_ID = 'C08'
 LEVEL = 'exploration'
-BUDGET = {'quick': 420, 'thorough': 11000}
+BUDGET = {'quick': 360, 'thorough': 9000}
 MANIFEST = {
     'engine': 'S',
     'technique': 'stateful PBT on the stepped scheduler: monitors on '
@@ -27,8 +27,10 @@ RULE = (
     'settle (k fair rounds) plus `trigger` and `set` (outputs or --pre=all) '
     'of pooled, finished or not-yet-spawned instances with --flow=new | none '
     '| N | N,M | default and --wait, and real stop/restart steps (stop --now '
-    'or clean, jobs optionally carrying on while down); half of the cases '
-    'end with "settle, restart, trigger --flow=new"; then a fair drain.  '
+    'or clean, jobs optionally carrying on while down; one main-loop '
+    'iteration follows every restart before the next command); half of the '
+    'cases end with "settle, restart, trigger --flow=new"; then a fair '
+    'drain.  '
     'Oracle (trace only, expectations from the harness AST): (a) after every '
     'spawn_on_output call of a parent with flows P (not flow-waiting): each '
     'model child of that output that is in the pool afterwards has flows '
@@ -65,6 +67,12 @@ ASSUMPTIONS = [
 ]
 
 
+# default / --flow=1 re-runs of finished upstream tasks make the same flow
+# reach finished instances again; new / N / N,M make flows meet
+C08_FLOWS = [[], [], [], ['new'], ['new'], ['new'], ['none'], ['1'], ['1'],
+             ['2'], ['3'], ['1', '2'], ['2', '3']]
+
+
 @st.composite
 def cases(draw):
     spec = draw(wfspecs({'max_tasks': 5, 'max_fcp': 5, 'abs': False,
@@ -74,7 +82,7 @@ def cases(draw):
     outcomes = draw(outcome_maps(spec))
     step = st.one_of(
         basic_steps(), basic_steps(), basic_steps(), settle_steps(1, 4),
-        flow_commands(), flow_commands(),
+        flow_commands(flows=C08_FLOWS), flow_commands(flows=C08_FLOWS),
         st.integers(0, 5).map(lambda n: ['restart', n]))
     sched = [['settle', draw(st.integers(0, 5))]]
     sched += draw(st.lists(step, max_size=36))
@@ -154,26 +162,38 @@ async def _check(case, ctx: Ctx) -> CaseResult:
         sc.drv.after_loop.append(sample)
         sc.drv.after_cmd.append(sample)
 
+        cmd_crash = None
         for step in case['schedule']:
             if not sim.running:
                 break
             if step[0] in ('trigger', 'set') and sim.schd is not None:
                 sim.ev('x-dbflows', nums=db_flow_numbers(
                     sim.schd.workflow_db_mgr.pri_path))
-            await run_step(sc, step)
+            try:
+                await run_step(sc, step)
+            except Exception as exc:
+                sig = exc_sig(exc)
+                if sig.endswith('@?') or isinstance(exc, AssertionError):
+                    raise               # not raised inside cylc: harness
+                cmd_crash = Violation(
+                    'C08:command-crashed:' + sig,
+                    f'step {step} raised {exc!r}')
+                break
             if step[0] == 'restart' and sim.running:
                 # a command is never processed before the first main-loop
                 # iteration of an incarnation
                 await sc.drv.loop()
-        await sc.drain()
+        if cmd_crash is None:
+            await sc.drain()
 
         viol = sc.crash_violations('C08')
+        if cmd_crash is not None:
+            viol.append(cmd_crash)
         classes = set()
         used = set()
         fin = {}                 # id -> flows it finished complete in
         n_restart = 0
         merged = False
-        new_after_restart = False
         for ev in sim.trace:
             k = ev['k']
             if k == 'x-flow':
